@@ -177,6 +177,39 @@ MUTANTS = [
  M("c20-submit-ack-before-queue", "C20", "C20.pass", ("src/proxy/socket/app/socket_app_proxy_server.go", "\tp.submitCh <- tx\n\n\t*ack = true\n", "\t*ack = true\n\n\tgo func() { p.submitCh <- tx }()\n")),
  M("c20-commitresponse-tagged", "C20", "C20.shape", ("src/proxy/types.go", "\tStateHash                   []byte\n", "\tStateHash                   []byte `json:\"state_hash,omitempty\"`\n")),
  M("c20-transactions-strings", "C20", "C20.shape", ("src/hashgraph/block.go", "\tStateHash                   []byte                       // root hash of the application after applying block payload; to be populated by application Commit\n", "\tStateHash                   []byte                       // root hash of the application after applying block payload; to be populated by application Commit\n\tNote                        string `json:\"-\"`\n")),
+ # ---- C01
+ M("c01-round-gt", "C01", "C01.thr", (HGF, "\tif c >= parentRoundPeerSet.SuperMajority() {", "\tif c > parentRoundPeerSet.SuperMajority() {")),
+ M("c01-fame-gt", "C01", "C01.thr", (HGF, "\t\t\t\t\t\tif math.Mod(float64(diff), COIN_ROUND_FREQ) > 0 {\n\t\t\t\t\t\t\tif t >= jPeerSet.SuperMajority() {", "\t\t\t\t\t\tif math.Mod(float64(diff), COIN_ROUND_FREQ) > 0 {\n\t\t\t\t\t\t\tif t > jPeerSet.SuperMajority() {")),
+ M("c01-fame-wrong-peerset", "C01", "C01.pair", (HGF, "\t\t\t\t\t\tif math.Mod(float64(diff), COIN_ROUND_FREQ) > 0 {\n\t\t\t\t\t\t\tif t >= jPeerSet.SuperMajority() {", "\t\t\t\t\t\tif math.Mod(float64(diff), COIN_ROUND_FREQ) > 0 {\n\t\t\t\t\t\t\tif t >= rPeerSet.SuperMajority() {")),
+ M("c01-ss-wrong-peerset", "C01", "C01.pair", (HGF, "ss, err := h.stronglySee(y, w, jPrevPeerSet)", "_ = jPrevPeerSet\n\t\t\t\t\t\t\tss, err := h.stronglySee(y, w, jPeerSet)")),
+ M("c01-round-set-of-prev-round", "C01", "C01.pair", (HGF, "\tparentRoundPeerSet, err := h.Store.GetPeerSet(parentRound)", "\tparentRoundPeerSet, err := h.Store.GetPeerSet(parentRound + 1)")),
+ M("c01-rr-set-of-event-round", "C01", "C01.pair", (HGF, "\t\t\ttPeers, err := h.Store.GetPeerSet(i)", "\t\t\ttPeers, err := h.Store.GetPeerSet(r)")),
+ M("c01-strongly-see-strict", "C01", "C01.see", (HGF, "if xlaok && yfdok && xla.Index >= yfd.Index {", "if xlaok && yfdok && xla.Index > yfd.Index {")),
+ M("c01-ancestor-strict", "C01", "C01.see", (HGF, "\tres := ok && entry.Index >= ey.Index()", "\tres := ok && entry.Index > ey.Index()")),
+ M("c01-merge-keeps-smaller", "C01", "C01.see", (HGF, "if !ok || sla.Index < ola.Index {", "if !ok || sla.Index > ola.Index {")),
+ M("c01-decided-reopens", "C01", "C01.fame", ("src/hashgraph/roundInfo.go", "\tif r.decided {\n\t\treturn true\n\t}\n", "")),
+ M("c01-fame-redecided", "C01", "C01.fame", (HGF, "\t\t\tif rRoundInfo.IsDecided(x) {\n\t\t\t\tcontinue\n\t\t\t}\n", "")),
+ M("c01-coin-round-decides", "C01", "C01.fame", (HGF, "if math.Mod(float64(diff), COIN_ROUND_FREQ) > 0 {", "if math.Mod(float64(diff), COIN_ROUND_FREQ) >= 0 {")),
+ M("c01-rr-not-all-famous", "C01", "C01.rr", (HGF, "if len(s) == len(fws) && len(s) >= tPeers.SuperMajority() {", "if len(s) >= tPeers.SuperMajority() {")),
+ M("c01-rr-skip-undecided", "C01", "C01.rr", (HGF, "\t\t\t\tif h.roundLowerBound == nil || *h.roundLowerBound < i {\n\t\t\t\t\tbreak\n\t\t\t\t} else {\n\t\t\t\t\tcontinue\n\t\t\t\t}", "\t\t\t\tcontinue")),
+ M("c01-rr-from-own-round", "C01", "C01.rr", (HGF, "\t\tfor i := r + 1; i <= h.Store.LastRound(); i++ {\n\t\t\ttr, err := h.Store.GetRound(i)", "\t\tfor i := r; i <= h.Store.LastRound(); i++ {\n\t\t\ttr, err := h.Store.GetRound(i)")),
+ M("c01-rr-no-break", "C01", "C01.rr", (HGF, "\t\t\t\t// break out of i loop\n\t\t\t\tbreak\n", "\t\t\t\t// keep looking\n\t\t\t\tcontinue\n")),
+ M("c01-rr-see-ignored", "C01", "C01.rr", (HGF, "\t\t\t\tif see {\n\t\t\t\t\ts = append(s, w)\n\t\t\t\t}", "\t\t\t\tif see || len(fws) == 1 {\n\t\t\t\t\ts = append(s, w)\n\t\t\t\t}")),
+ M("c01-tiebreak-topological", "C01", "C01.order", (EVF, "\treturn wsi.Cmp(wsj) < 0\n}", "\tif c := wsi.Cmp(wsj); c != 0 {\n\t\treturn c < 0\n\t}\n\treturn a[i].Core.topologicalIndex < a[j].Core.topologicalIndex\n}")),
+ M("c01-frame-unsorted", "C01", "C01.order", (HGF, "\tsort.Sort(SortedFrameEvents(events))\n\n\t// Get/Create Roots.", "\tif len(events) > 64 {\n\t\tsort.Sort(SortedFrameEvents(events))\n\t}\n\n\t// Get/Create Roots.")),
+ M("c01-continue-on-undecided", "C01", "C01.inorder", (HGF, "\t\tif !r.Decided {\n\t\t\tbreak\n\t\t}", "\t\tif !r.Decided {\n\t\t\tcontinue\n\t\t}")),
+ # ---- C04
+ M("c04-lamport-no-increment", "C04", "C04.lamport", (HGF, "\treturn plt + 1, nil\n}", "\treturn plt, nil\n}")),
+ M("c04-lamport-ignores-other-parent", "C04", "C04.lamport", (HGF, "\t\tif opLT > plt {\n\t\t\tplt = opLT\n\t\t}\n", "\t\t_ = opLT\n")),
+ M("c04-lamport-min", "C04", "C04.lamport", (HGF, "\t\tif opLT > plt {\n\t\t\tplt = opLT\n\t\t}\n", "\t\tif opLT < plt && opLT >= 0 {\n\t\t\tplt = opLT\n\t\t}\n")),
+ M("c04-sort-descending", "C04", "C04.sort", (EVF, "\t\treturn a[i].LamportTimestamp < a[j].LamportTimestamp", "\t\treturn a[i].LamportTimestamp > a[j].LamportTimestamp")),
+ M("c04-sort-tiebreak-first", "C04", "C04.sort", (EVF, "\tif a[i].LamportTimestamp != a[j].LamportTimestamp {", "\tif a[i].LamportTimestamp != a[j].LamportTimestamp && a[i].Core.Signature == a[j].Core.Signature {")),
+ M("c04-batch-reverse", "C04", "C04.batch", ("src/hashgraph/block.go", "\tfor _, e := range frame.Events {\n\t\ttransactions = append(transactions, e.Core.Transactions()...)", "\tfor i := len(frame.Events) - 1; i >= 0; i-- {\n\t\te := frame.Events[i]\n\t\ttransactions = append(transactions, e.Core.Transactions()...)")),
+ M("c04-batch-skip-witnesses", "C04", "C04.batch", ("src/hashgraph/block.go", "\t\ttransactions = append(transactions, e.Core.Transactions()...)\n", "\t\tif !e.Witness {\n\t\t\ttransactions = append(transactions, e.Core.Transactions()...)\n\t\t}\n")),
+ M("c04-frame-events-of-created", "C04", "C04.batch", (HGF, "\tfor _, eh := range round.ReceivedEvents {\n\t\tre, err := h.createFrameEvent(eh)", "\tfor eh := range round.CreatedEvents {\n\t\tre, err := h.createFrameEvent(eh)")),
+ M("c04-keep-received", "C04", "C04.once", (HGF, "\t\tif !received {\n\t\t\tnewUndeterminedEvents = append(newUndeterminedEvents, x)\n\t\t}", "\t\tif !received || h.PendingLoadedEvents > 0 {\n\t\t\tnewUndeterminedEvents = append(newUndeterminedEvents, x)\n\t\t}")),
+ M("c04-divide-rounds-requeues", "C04", "C04.once", (HGF, "\t\tif updateEvent {\n\t\t\th.Store.SetEvent(ev)\n\t\t}", "\t\tif updateEvent {\n\t\t\th.Store.SetEvent(ev)\n\t\t} else if ev.roundReceived != nil {\n\t\t\th.UndeterminedEvents = append(h.UndeterminedEvents, hash)\n\t\t}")),
+ M("c04-return-on-commit-error", "C04", "C04.roundonce", (HGF, "\t\t\t\t\th.logger.Warningf(\"Failed to commit block %d\", block.Index())\n", "\t\t\t\t\th.logger.Warningf(\"Failed to commit block %d\", block.Index())\n\t\t\t\t\treturn err\n")),
 ]
 
 BENIGN = [
@@ -221,4 +254,9 @@ BENIGN = [
  B("c15-benign-literal-order", "C15", (HGF, "\t\tIndex:                wevent.Body.Index,\n\t\tTimestamp:            wevent.Body.Timestamp,\n", "\t\tTimestamp:            wevent.Body.Timestamp,\n\t\tIndex:                wevent.Body.Index,\n")),
 
  B("c20-benign-loop-form", "C20", (APPC, "\tfor try := 0; try < p.retries; try++ {", "\tfor try := 1; try <= p.retries; try++ {"), (APPC, "try+1, p.retries, err)\n\t\t\tcontinue\n\t\t}\n\n\t\tcall :=", "try, p.retries, err)\n\t\t\tcontinue\n\t\t}\n\n\t\tcall :=")),
+
+ B("c01-benign-swapped-quorum", "C01", (HGF, "\tif c >= parentRoundPeerSet.SuperMajority() {", "\tif !(c < parentRoundPeerSet.SuperMajority()) {")),
+ B("c01-benign-rr-conjuncts-swapped", "C01", (HGF, "if len(s) == len(fws) && len(s) >= tPeers.SuperMajority() {", "if len(s) >= tPeers.SuperMajority() && len(fws) == len(s) {")),
+ B("c04-benign-skip-empty", "C04", ("src/hashgraph/block.go", "\t\ttransactions = append(transactions, e.Core.Transactions()...)\n", "\t\tif len(e.Core.Transactions()) > 0 {\n\t\t\ttransactions = append(transactions, e.Core.Transactions()...)\n\t\t}\n")),
+ B("c04-benign-lamport-swapped", "C04", (HGF, "\t\tif opLT > plt {\n\t\t\tplt = opLT\n\t\t}\n", "\t\tif plt < opLT {\n\t\t\tplt = opLT\n\t\t}\n")),
 ]
